@@ -670,6 +670,11 @@ func (b *Backend) emitType(handle ir.TypeHandle) (uint32, error) {
 
 	case ir.PointerType:
 		baseID, err := b.emitType(inner.Base)
+		if err == nil && inner.Space == ir.SpaceWorkGroup {
+			// Workgroup variables are declared with layout-free types; a pointer
+			// parameter must have the very same pointer type as the variable passed.
+			baseID, err = b.emitTypeWithoutLayout(inner.Base)
+		}
 		if err != nil {
 			return 0, err
 		}
